@@ -30,6 +30,10 @@ type Obligation struct {
 	splitVal  int // current case (set by the discharger)
 	Cases    int
 	FailedCases int
+	// real-code replay (pure functions): the clause over the entry values and free result constants
+	ReplayGoal  *Term
+	Replay      *replayInfo
+	ExtraAsserts []string
 
 	// results
 	Result  string // unsat (discharged) | sat | unknown | timeout
@@ -299,6 +303,9 @@ func (o *Obligation) Query(withModel bool) string {
 		b.WriteString("(assert ")
 		b.WriteString(a)
 		b.WriteString(")\n")
+	}
+	for _, e := range o.ExtraAsserts {
+		b.WriteString("(assert " + e + ")\n")
 	}
 	b.WriteString("(assert " + o.PC.S + ")\n")
 	b.WriteString("(assert (not " + o.Goal.S + "))\n")
